@@ -53,10 +53,11 @@ CharsOf(t) ==
     [] t = "0"            -> <<"0">>
     [] t = "OWN"          -> <<"O">>           \* the ufrag of the applied remote description
     [] t = "FOREIGN"      -> <<"F", "F">>      \* any other ufrag
+    [] t = "UTF8"         -> <<"c", "e2">> \* a value ending in a character of more than one byte (the driver uses "caf\u00e9")
     [] t = "active"       -> <<"a">>
     [] t = "passive"      -> <<"p">>
     [] t = "so"           -> <<"s", "o">>
-AllToks == {"", "generation", "network-cost", "x", "ufrag", "tcptype", "0", "OWN", "FOREIGN", "active", "passive", "so"}
+AllToks == {"", "generation", "network-cost", "x", "ufrag", "tcptype", "0", "OWN", "FOREIGN", "UTF8", "active", "passive", "so"}
 TokOf(cs) == IF \E t \in AllToks : CharsOf(t) = cs THEN CHOOSE t \in AllToks : CharsOf(t) = cs ELSE "?"
 
 \* candidateBase.Extensions(): the TCP type is reported as the first extension
